@@ -23,6 +23,7 @@ LEAN = dict(
     extra_modules=["LeaspyVerif.Model.State", "LeaspyVerif.Model.Dag", "LeaspyVerif.Props.C15"],
     theorems=["inv_init", "inv_step", "get_refines", "get_unknown", "run_refines", "set_abs", "set_refused", "wf_of_build",
               "spec_total", "get_total", "get_idempotent", "step_other_states_untouched",
+              "readOK_unique", "reads_depend_on_independent_values_only", "clone_reads_agree",
               ],
     trusted_extra=[
         "values are abstract in the theorems (any type, so tensors with inf/nan are covered: reverts select, they do not compute); "
